@@ -269,6 +269,81 @@ def is_probable_prime(n):
     return True
 
 
+CURVES = []
+
+
+def comb_capacity(rep, u, curves=None):
+    """comb multipliers read scalar bits through bn_combo_column_get from tables built for curve->m bits: on every path to
+    such a read the scalar is known to have at most m bits.  Decided (a) by partial evaluation of the function's guards
+    over d->digits x curve->m (every ordering of digits*BN_DIGIT_BITS vs m), or (b) for a guard of the form bn_cmp(d, n)
+    from the curve table: bitlen(n) <= m must hold for every built-in curve."""
+    from rules import r_stride
+    n = 0
+    for fn in u.function_list:
+        if fn.relfile() != EC_H or not fn.has_cfg:
+            continue
+        reads = [(pos, c) for pos, root, c, ps in fn.calls({"bn_combo_column_get"})]
+        if not reads:
+            continue
+        sc = core.strip_casts(reads[0][1]["args"][0])
+        if sc.get("k") != "ref" or sc.get("dk") != "parm":
+            continue
+        d = sc["n"]
+        n += 1
+        rep.functions.add(fn.name)
+        desc = "every comb table read of scalar '%s' in %s is reached only with bitlen(%s) <= curve->m" % (d, fn.name, d)
+        bits = 64
+        for g in fn.nodes():
+            pass
+        # digit width of this configuration: sizeof(bn_digit_t) * 8 from the d->num element type
+        pe = r_stride.PE(u, call_default={nm: 0 for nm in u.functions if nm.startswith(("ec_point", "bn_assign", "bn_mod"))})
+        body = set(fn.reachable_blocks())
+        verdict = "no"
+        wit = None
+        W = _digit_bits(u)
+        for k, m in ((1, W - 1), (2, W), (2, W + 1), (3, 2 * W), (3, 2 * W + 32), (3, 3 * W - 1), (9, 521)):
+            if k * W <= m:
+                continue
+            bind = {d + "->digits": k, "curve->m": m, "mult_data->wnd_bits": 4, "mult_data->wnd_count": (m + 3) // 4,
+                    "mult_data->e_count": ((m + 3) // 4 + 1) // 2, "bn_is_one(%s)" % d: 0, "bn_is_zero(%s)" % d: 0,
+                    "point": 0x1000, "mult_data": 0x2000, "curve": 0x3000}
+            pos, c = reads[0]
+            r, path = pe.reach_stmt(fn, fn.entry, body, bind, pos[0], fn.blocks[pos[0]].elems[pos[1]])
+            if r == "sure":
+                verdict, wit = "sure", (k, m)
+                break
+            if r == "unsure":
+                verdict, wit = "unsure", (k, m)
+        if verdict == "no":
+            rep.proved("R-CAP", fn, "comb-capacity", desc, "with %s->digits * %d > curve->m the reads are unreachable (grid over both orderings)" % (d, W))
+            continue
+        # (b) guard of the form bn_cmp(d, &curve->n)
+        cmpn = [c for _, _, c, _ in fn.calls({"bn_cmp"}) if key(core.strip_casts(c["args"][0])) == d and "curve->n" in key(c["args"][1])]
+        if cmpn and curves:
+            badc = [(nm, nb, m) for nm, nb, m in curves if nb > m]
+            if badc:
+                rep.violated("R-CAP", fn, "comb-capacity", desc, "the only bound on the scalar is %s <= n, but bitlen(n) > m for %s: bit m of the "
+                             "scalar lies outside the table" % (d, ", ".join("%s (%d > %d)" % b for b in badc[:4])))
+            else:
+                rep.proved("R-CAP", fn, "comb-capacity", desc, "scalar <= n and bitlen(n) <= m for all %d curves" % len(curves))
+        elif verdict == "sure":
+            rep.violated("R-CAP", fn, "comb-capacity", desc, "with %s->digits=%d (up to %d bits) and curve->m=%d the table read is reached and no test "
+                         "on the path bounds the scalar" % (d, wit[0], wit[0] * W, wit[1]))
+        else:
+            rep.undecided("R-CAP", fn, "comb-capacity", desc, "a guard could not be evaluated")
+    return n
+
+
+def _digit_bits(u):
+    for r in u.records.values():
+        for f in r.get("fields", []):
+            if f["n"] == "num" and r["n"].startswith("bn_"):
+                t = u.type(f["t"])
+                if t["k"] == "arr":
+                    return (u.type(t["to"]).get("size") or 8) * 8
+    return 64
+
+
 def curve_table(rep, u):
     g = u.globals.get("ec_curve_str")
     fn = u.fn("ecdsa_curve_from_str")
@@ -289,6 +364,7 @@ def curve_table(rep, u):
         except (TypeError, ValueError):
             rep.violated("R-TBL", fn, "curve:%s" % nm, "curve record has hexadecimal parameters", "unparsable")
             continue
+        CURVES.append((nm, n.bit_length(), r["m"]))
         probs = []
         for k in ("p", "a", "b", "Gx", "Gy"):
             if len(r[k]) != r["num_size"]:
@@ -389,7 +465,12 @@ def run(rep, tier):
     rep.floor("bn/point locals tracked", n_ts, 40)
     rep.floor("table-element destinations", n_arr, 20)
     rep.floor("exceptional-case guards", n_g, 8)
+    del CURVES[:]
     curve_table(rep, us[aspecs[0].label])
+    ncap = 0
+    for s_ in aspecs:
+        ncap += comb_capacity(rep, us[s_.label], list(CURVES))
+    rep.floor("comb multipliers", ncap, 2)
     return driver.finish(
         rep, "other",
         "Static analysis of math/elliptic_curve.h: %d configurations compiled as witnesses, %d analysed in depth. "
